@@ -1433,6 +1433,8 @@ class Interp:
                 return h(sc, *[self.eval(a, sc) for a in e.args])
             return h(sc)
         f = self.eval(e.func, sc)
+        if f is None:
+            raise Declined("TypeError", "'NoneType' object is not callable")  # what CPython raises: the real code fails here
         args = []
         for a in e.args:
             if isinstance(a, ast.Starred):
